@@ -4,7 +4,7 @@ import OpenHTF.Driver.Util
    `C07 IR <min> <max> <mmin> <mmax> <v> # <ctor> [<acc> <marg> <copies>]`
    `C07 AR <min> <max> <mmin> <mmax> <n> <v>... # <ctor> [<acc>]`
    `C07 WP <e> <p> <mp|-> <min> <max> <tol> <v> # <ctor> [<acc> <marg>]`
-   `C07 EQS <lithex|-> <vhex|-> # <acc>` ; `C07 RX <lithex|-> <vhex|-> # <acc>` ; `C07 PV <n> <0|1>... # <pivot> <consistentEnd>` -/
+   `C07 EQS <lithex|-> <vhex|-> # <acc>` ; `C07 AES <lithex|-> <n> <vhex|->.. # <acc>` ; `C07 RX <lithex|-> <vhex|-> # <acc>` ; `C07 PV <n> <0|1>... # <pivot> <consistentEnd>` -/
 namespace OpenHTF.Driver.C07
 open OpenHTF.Driver OpenHTF.Validators
 
@@ -124,6 +124,12 @@ def handle (ts : Toks) : String :=
     | some l, some v =>
       let m := b01 (equalsStr l v)
       result (real == [m]) (if real == [m] then [] else ["equals-literal-string"]) m
+    | _, _ => reply false false "parse-error"
+  | "AES" :: l :: _n :: vs =>
+    match unhex (if l == "-" then "" else l), vs.mapM (fun v => unhex (if v == "-" then "" else v)) with
+    | some l, some vs =>
+      let m := b01 (allEqualsStr l vs)
+      result (real == [m]) (if real == [m] then [] else ["all-equals-literal-string"]) m
     | _, _ => reply false false "parse-error"
   | ["RX", l, v] =>
     match unhex (if l == "-" then "" else l), unhex (if v == "-" then "" else v) with
